@@ -111,12 +111,17 @@ def install_shapes(R):
 
 
 GROW = ['wf_out(self)', 'data_prefix_kept(self)', 'self.size >= old(self.size)']
+SAME = ['self.size == old(self.size)', 'len(self.data) == old(len(self.data))', 'data_prefix_kept(self)', 'wf_out(self)']
+
+
+def same_on(*excs):
+    return {e: SAME for e in excs}
 
 
 def install_primitives(R):
     R.contract(M, 'DNSOutgoing._write_byte', P, params={'value': 'int'}, requires=['wf_out(self)'],
                raises={'IndexError': 'value >= 256 or value < -256'}, raises_exact=['IndexError'],
-               modifies=['self.data', 'self.size'],
+               modifies=['self.data', 'self.size'], ensures_raise=same_on('IndexError'),
                ensures=GROW + ['self.size == old(self.size) + 1', 'len(self.data) == old(len(self.data)) + 1'])
     R.contract(M, 'DNSOutgoing._get_short', P, params={'value': 'int'}, returns='bytes',
                raises={'struct.error': 'value >= 65536', 'IndexError': 'value < -128'},
@@ -125,11 +130,11 @@ def install_primitives(R):
     R.contract(M, 'DNSOutgoing.write_short', P, params={'value': 'int'}, requires=['wf_out(self)'],
                raises={'struct.error': 'value >= 65536', 'IndexError': 'value < -128'},
                raises_exact=['struct.error', 'IndexError'],
-               modifies=['self.data', 'self.size'],
+               modifies=['self.data', 'self.size'], ensures_raise=same_on('struct.error', 'IndexError'),
                ensures=GROW + ['self.size == old(self.size) + 2', 'len(self.data) == old(len(self.data)) + 1'])
     R.contract(M, 'DNSOutgoing._write_int', P, params={'value': 'real'}, requires=['wf_out(self)'],
                raises={'struct.error': 'value <= -1 or value >= 4294967296'}, raises_exact=['struct.error'],
-               modifies=['self.data', 'self.size'],
+               modifies=['self.data', 'self.size'], ensures_raise=same_on('struct.error'),
                ensures=GROW + ['self.size == old(self.size) + 4', 'len(self.data) == old(len(self.data)) + 1'])
     R.contract(M, 'DNSOutgoing.write_string', P, params={'value': 'bytes'}, requires=['wf_out(self)'],
                modifies=['self.data', 'self.size'],
@@ -147,4 +152,74 @@ def install_primitives(R):
                raises_exact=['struct.error', 'IndexError'],
                modifies=['self.data'],
                ensures=['len(self.data) == old(len(self.data)) + 1',
-                        'forall("k:int", lambda k: implies(k >= 0, bsum(self.data, k + 1) == 2 + old(bsum(self.data, k))))'])
+                        'forall("k:int", lambda k: implies(k >= 1, bsum(self.data, k) == 2 + old(bsum(self.data, k - 1))))'])
+
+
+# ---- uninterpreted string operations (only chunk lengths matter for C14) -----------------------------------
+def _str_slice_uninterp(ex, v, lo, hi, st, frame, node):
+    return Sc(fresh('sslice', Str), STR)
+
+
+def _str_join_uninterp(ex, s, args, kw, st, frame, node):
+    yield st, Sc(fresh('sjoin', Str), STR)
+
+
+def install_uninterpreted_strings(R):
+    R.stubs['str.slice'] = _str_slice_uninterp
+    R.stubs['str.join'] = _str_join_uninterp
+
+
+def install_writers(R):
+    NP = 'NamePartTooLongException'
+    R.contract(M, 'DNSOutgoing._write_utf', P, params={'s': 'str'}, requires=['wf_out(self)'],
+               raises={NP: 'ulen(s) > 64'}, raises_exact=[NP], ensures_raise=same_on(NP),
+               modifies=['self.data', 'self.size'],
+               ensures=GROW + ['self.size == old(self.size) + 1 + ulen(s)', 'len(self.data) == old(len(self.data)) + 2'])
+    R.contract(M, 'DNSOutgoing.write_character_string', P, params={'value': 'bytes'}, requires=['wf_out(self)'],
+               raises={NP: 'blen(value) > 256', 'IndexError': 'blen(value) == 256'}, raises_exact=[NP, 'IndexError'],
+               ensures_raise=same_on(NP, 'IndexError'),
+               modifies=['self.data', 'self.size'],
+               ensures=GROW + ['self.size == old(self.size) + 1 + blen(value)'])
+    R.contract(M, 'DNSOutgoing._write_link_to_name', P, params={'index': 'int'}, requires=['wf_out(self)'],
+               raises={'IndexError': 'index >= 16384 or index < -65536'}, ensures_raise={'IndexError': GROW},
+               modifies=['self.data', 'self.size'],
+               ensures=GROW + ['self.size == old(self.size) + 2'])
+    R.contract(M, 'DNSOutgoing.write_name', P, params={'name': 'str'}, requires=['wf_out(self)'],
+               raises={NP: 'True', 'IndexError': 'True'},
+               modifies=['self.data', 'self.size', 'self.names'],
+               ensures=GROW,
+               ensures_raise={NP: GROW, 'IndexError': GROW},
+               loops={0: Loop(inv=['wf_out(self)', 'data_prefix_kept(self)', 'self.size >= old(self.size)'])},
+               note='C14 view: string operations uninterpreted; the name table and byte forms are C01')
+    R.contract(M, 'DNSOutgoing._write_record_class', P, params={'record': 'DNSEntry'},
+               requires=['wf_out(self)', 'record is not None'],
+               raises={'struct.error': 'record.class_ >= 32768 or record.class_ < 0', 'IndexError': 'record.class_ < 0'},
+               ensures_raise=same_on('struct.error', 'IndexError'),
+               modifies=['self.data', 'self.size'],
+               ensures=GROW + ['self.size == old(self.size) + 2'])
+    R.contract(M, 'DNSOutgoing._write_ttl', P, params={'record': 'DNSRecord', 'now': 'real'},
+               requires=['wf_out(self)', 'record is not None'],
+               raises={'struct.error': '(now == 0 and (record.ttl <= -1 or record.ttl >= 4294967296)) or '
+                                       '(now != 0 and (record.created + 1000 * record.ttl - now) / 1000 >= 4294967296)'},
+               ensures_raise=same_on('struct.error'),
+               modifies=['self.data', 'self.size'],
+               ensures=GROW + ['self.size == old(self.size) + 4'])
+    # record bodies
+    D = 'zeroconf._dns'
+    W = dict(requires=['wf_out(out)', 'out is not None'], modifies=['out.data', 'out.size', 'out.names'])
+    GO = [g.replace('self', 'out') for g in GROW]
+    R.contract(D, 'DNSAddress.write', P, params={'out': 'DNSOutgoing'}, ensures=GO, **W)
+    R.contract(D, 'DNSText.write', P, params={'out': 'DNSOutgoing'}, ensures=GO, **W)
+    R.contract(D, 'DNSPointer.write', P, params={'out': 'DNSOutgoing'}, ensures=GO,
+               raises={NP: 'True', 'IndexError': 'True'}, ensures_raise={NP: GO, 'IndexError': GO}, **W)
+    R.contract(D, 'DNSHinfo.write', P, params={'out': 'DNSOutgoing'}, ensures=GO,
+               raises={NP: 'True', 'IndexError': 'True'}, ensures_raise={NP: GO, 'IndexError': GO}, **W)
+    R.contract(D, 'DNSService.write', P, params={'out': 'DNSOutgoing'}, ensures=GO,
+               raises={NP: 'True', 'IndexError': 'True',
+                       'struct.error': 'self.priority >= 65536 or self.weight >= 65536 or self.port >= 65536'},
+               ensures_raise={NP: GO, 'IndexError': GO, 'struct.error': GO}, **W)
+    R.contract(D, 'DNSNsec.write', P, params={'out': 'DNSOutgoing'}, ensures=GO,
+               raises={NP: 'True', 'IndexError': 'True', 'ValueError': 'True'},
+               ensures_raise={NP: GO, 'IndexError': GO, 'ValueError': GO}, trusted=True,
+               note='NSEC bitmap construction (bytearray bit operations) is outside the engine: assumed to append chunks '
+                    'with correct size bookkeeping, like every other write(); byte content is C01 K9', **W)
